@@ -17,7 +17,7 @@ import ast
 from ..model import AnchorMissing, CannotAnalyse, walk_no_nested
 from ..cfg import CFG, fmt_path
 from ..poly import Rat, C, mk_atom, subst, REG
-from ..vg import Evaluator, SymList, vkey, State, atoms_of
+from ..vg import loopvar, Evaluator, SymList, vkey, State, atoms_of
 from .common import calls_to, kwarg, stmt_of, site, key, attr_stores
 
 MOD = 'gnpy.topology.spectrum_assignment'
@@ -132,7 +132,7 @@ def r1_layout(ctx):
               'no integer variable tracks the end of the map built so far (len(bitmap) - last_band_max not invariant)')
     if ok_shape and inv:
         v = inv[0].split(' - ')[1].split(' ')[0]
-        pv = Rat.of(mk_atom('fn', f'loopvar#{lid}', (v,)))
+        pv = loopvar(lid, v)
         bandk, lastk = free_run(psegs[1][1], psegs[2][1], pv + C(1), 'next band')
         ctx.check('R1.runs', f'{s0} last-max update', lastk is not None and isinstance(lb['post'].get(v), Rat) and
                   lb['post'][v].eq(lastk), key(f, 'last-max'),
@@ -143,7 +143,7 @@ def r1_layout(ctx):
         # band index walks 1, 2, ...
         idx = [k for k, pvv in lb['pre'].items() if isinstance(pvv, Rat) and pvv.eq(C(1)) and
                isinstance(lb['post'].get(k), Rat) and
-               lb['post'][k].eq(Rat.of(mk_atom('fn', f'loopvar#{lid}', (k,))) + C(1))]
+               lb['post'][k].eq(loopvar(lid, k) + C(1))]
         uses = bandk is not None and idx and f"loopvar#{lid}('{idx[0]}')" in vkey(bandk)
         t = lb['node'].test if isinstance(lb['node'], ast.While) else None
         test_ok = isinstance(t, ast.Compare) and len(t.ops) == 1 and isinstance(t.ops[0], ast.Lt) and idx and \
@@ -213,12 +213,15 @@ def r2_indices(ctx):
             ln = c.args[0].length
             txt = vkey(ln)
             base = vkey(c.base) if c.base is not None else ''
+            from ..vg import path_of
+
+            def own(a):
+                p_ = path_of(c.base)
+                return Rat.of(mk_atom('fld', f'{p_}.{a}')) if p_ else Rat.of(mk_atom('fn', 'attr', (c.base, a)))
             if c.name == 'insert_left':
-                ok = txt.count('n_min') == 2 and 'min(' in txt and ln.eq(
-                    Rat.of(mk_atom('fn', 'attr', (c.base, 'n_min'))) - ln_other(ln, 'min('))
+                ok = txt.count('n_min') == 2 and 'min(' in txt and ln.eq(own('n_min') - ln_other(ln, 'min('))
             else:
-                ok = txt.count('n_max') == 2 and 'max(' in txt and ln.eq(
-                    ln_other(ln, 'max(') - Rat.of(mk_atom('fn', 'attr', (c.base, 'n_max'))))
+                ok = txt.count('n_max') == 2 and 'max(' in txt and ln.eq(ln_other(ln, 'max(') - own('n_max'))
             tag = c.args[0].segs[0][0] if c.args[0].segs else None
             ctx.check('R2.align', f'{site(ag, c.node)} {c.name}', bool(ok) and tag == '0', key(ag, c.name),
                       f'align_grids does not pad {c.name} with OCCUPIED slots for exactly the missing extent',
